@@ -33,6 +33,7 @@ def load_spec():
         for k, t in ov.get('loops', {}).items(): ent['loops'][k] = ent['loops'].get(k, '') + t
         for w, t in ov.get('proofs', {}).items(): ent['proofs'][w] = ent['proofs'].get(w, '') + t
         if ov.get('text'): ent['text'] += ov['text']
+        if ov.get('attrs'): ent['attrs'] += ov['attrs']
     return sp, rows_mod, pre
 
 
